@@ -53,6 +53,13 @@ Next ==
             IN
             /\ bad' = IF wrong = {} THEN bad ELSE Flag(ev, "PostImport", wrong \cup {cur.name})
             /\ cnt' = [cnt EXCEPT !.post = @ + 1] /\ UNCHANGED cur
+       \* a replica added right after the repair is brought up to date from the imported state: whatever it
+       \* answers must be the exported state (not answering in time is not judged)
+       [] ev.ev = "PostImportJoin" /\ cur.set ->
+            /\ bad' = IF ev.read /\ ~ev.state_equal
+                        THEN Flag(ev, "PostImport", {"replica_added_after_the_import_does_not_hold_the_exported_state", cur.name})
+                        ELSE bad
+            /\ UNCHANGED <<cur, cnt>>
        [] ev.ev = "PostImportProposal" /\ cur.set ->
             /\ bad' = IF ev.accepted /\ ev.visible THEN bad ELSE Flag(ev, "PostImport", {"new_proposal_not_accepted", cur.name})
             /\ cnt' = [cnt EXCEPT !.proposals = @ + 1] /\ UNCHANGED cur
